@@ -251,7 +251,7 @@ pub fn row_sweep(max_len: usize) -> Vec<(usize, u64)> {
 
 pub fn run(ctx: &mut Ctx) {
     witness_self_check();
-    ctx.rule = "ranges by row-pattern construction over the 25 rows / 169 rank-pair cells: each cell absent / complete at one of three weights, a random subset of rows active, up to 6 (thorough 10) cells made partial with mixed weights; weights from a palette (so equal-weight neighbours are common) and arbitrary f32 bit patterns in [0,1] incl. subnormals (no -0.0) and the one f32 in (0,1] that is sensitive to double rounding through f64 (0x15ae43fd); exhaustive: every absent/weight-a/weight-b pattern of every row with <= 7 cells (thorough: every row, 3^13 pocket patterns and 3^12..3 per high card and kind). Oracle: to_string().parse() is Ok, equal, and every weight bit-identical. Tokens: every well-formed HandRangeToken::new(kind, w) over all 3,796 token ASTs x weights, text must parse back to an equal token. Non-trivial (ranges): text has a merged token and a weight != 1, or a leftover combo; distinct by text.".into();
+    ctx.rule = "ranges by row-pattern construction over the 25 rows / 169 rank-pair cells: each cell absent / complete at one of three weights, a random subset of rows active, up to 6 (thorough 10) cells made partial with mixed weights; weights from a palette (so equal-weight neighbours are common) and arbitrary f32 bit patterns in [0,1] incl. subnormals (no -0.0) and the one f32 in (0,1] that is sensitive to double rounding through f64 (0x15ae43fd); dense ranges of (nearly) all 1326 combos with pairwise different, mostly tiny weights (texts of up to 75 KB); exhaustive: every absent/weight-a/weight-b pattern of every row with <= 7 cells (thorough: every row, 3^13 pocket patterns and 3^12..3 per high card and kind). Oracle: to_string().parse() is Ok, equal, and every weight bit-identical. Tokens: every well-formed HandRangeToken::new(kind, w) over all 3,796 token ASTs x weights, text must parse back to an equal token. Non-trivial (ranges): text has a merged token and a weight != 1, or a leftover combo; distinct by text.".into();
     ctx.assumptions = vec!["-0.0 is excluded from the weight domain: the parser cannot produce it and it prints as '-0'".into(), "NaN weights are outside [0,1]".into()];
     let mp = ctx.tier.pick(6, 10);
     let cases = ctx.tier.pick(20_000, 300_000);
@@ -259,6 +259,34 @@ pub fn run(ctx: &mut Ctx) {
     for (c, d) in [("run_from_row_top", 10), ("run_to_deuce", 10), ("adjacent_runs_different_weight", 10), ("trey_row", 20), ("leftover_combos", 4), ("run_mid_row", 4)] {
         ctx.require_class("row_pattern_ranges", c, cases / d);
     }
+    // dense ranges that cannot be merged: (nearly) all 1326 combos with pairwise different, mostly
+    // tiny weights - the longest texts the formatter can produce (about 75 KB)
+    let cases_dense = ctx.tier.pick(16, 160);
+    ctx.run_random_brief(
+        StreamCfg::new("dense_unmergeable_ranges", RANGE_CLASSES, cases_dense).shrink(12),
+        || {
+            (any::<u64>(), 0usize..40, prop_oneof![Just(0u32), Just(1u32), Just(2u32)]).prop_map(|(seed, drop, mode)| {
+                let mut m = RangeMap::new();
+                let mut x = mix64(seed);
+                for (i, p) in all_combos().into_iter().enumerate() {
+                    x = mix64(x);
+                    if (x % 1326) < drop as u64 {
+                        continue;
+                    }
+                    let w = match mode {
+                        // tiny weights with long decimal expansions, all different
+                        0 => f32::from_bits(0x0000_0001 + (i as u32) * 7 + ((x >> 16) as u32 & 0xffff)),
+                        1 => f32::from_bits(0x0900_0000 + (i as u32) * 4099 + ((x >> 16) as u32 & 0xfff)),
+                        _ => f32::from_bits(0x3f00_0000 + (i as u32) * 13),
+                    };
+                    m.insert(p, w);
+                }
+                RangeCase::from_map(&m)
+            })
+        },
+        check_range,
+        |c| json!({"combos": c.combos.len(), "text_bytes": to_espada(&c.map()).to_string().len()}),
+    );
     let sweep = row_sweep(ctx.tier.pick(7, 13));
     let n = sweep.len() as u64;
     ctx.run_enum_brief(
